@@ -7,7 +7,7 @@ cp -r /repo/. "$d"/ && rm -rf "$d/.git"
 if ! (cd "$d" && patch -p1 -s < "$patch"); then echo "PATCH FAILED"; rm -rf "$d"; exit 3; fi
 rc=0
 for id in "$@"; do
-  out=$(cd /verif && VERIF_REPO="$d" ./check "$id" "$tier" 2>&1); code=$?
+  out=$(cd /verif && VERIF_OUT="$d/.verif-out" VERIF_REPO="$d" ./check "$id" "$tier" 2>&1); code=$?
   echo "== $id exit=$code $(echo "$out" | grep -c '^VIOLATION') violation line(s)"
   echo "$out" | grep -E "^(SUMMARY|INFRA|INCONCLUSIVE)" | head -3
   echo "$out" | grep -A1 "^VIOLATION" | grep "what:" | head -3
